@@ -167,7 +167,48 @@ func cmdUHist(o *Out, line string, f []string) {
 	}
 	_ = expect
 	meta := ""
-	for _, op := range sec[2] {
+	// metadata documents of the pool (indices 6 and up), as hex and as decoded values for the JSON flavour
+	var metaVals []interface{}
+	for _, mraw := range pool[6:] {
+		var d bson.D
+		_ = bson.Unmarshal(mraw, &d)
+		metaVals = append(metaVals, normJSONValue(d))
+	}
+	// which metadata documents of the pool occur in a piece of output, in order (hex of the pool entry)
+	metaDocsIn := func(out []byte) []string {
+		var found []string
+		if flavour == "bson" {
+			docs, _ := splitBSON(out)
+			for _, d := range docs {
+				for _, mraw := range pool[6:] {
+					if d == hx(mraw) {
+						found = append(found, d)
+					}
+				}
+			}
+			return found
+		}
+		_, vals, _ := jsonLines(out)
+		for _, v := range vals {
+			for i, mv := range metaVals {
+				if reflect.DeepEqual(normJSONValue(v), mv) {
+					found = append(found, hx(pool[6+i]))
+				}
+			}
+		}
+		return found
+	}
+	// oracle (C17, C11-like): a metadata document in the output is the one that is set at that moment
+	checkMeta := func(out []byte, where string) {
+		for _, m := range metaDocsIn(out) {
+			if m != meta {
+				bad("the output carries a metadata document that is not the one currently set", map[string]string{"where": where})
+				return
+			}
+		}
+	}
+	for opIdx, op := range sec[2] {
+		wbOp := w.Len()
 		switch op[0] {
 		case 'a':
 			raw := pool[int(atoi64(op[1:]))]
@@ -191,6 +232,7 @@ func cmdUHist(o *Out, line string, f []string) {
 			} else {
 				s, ok := render(out)
 				obs = append(obs, fmt.Sprintf("R%s[%s]", map[bool]string{true: "", false: "!"}[ok], s))
+				checkMeta(out, fmt.Sprintf("Resolve at op %d", opIdx))
 			}
 		case 'z':
 			// samples pending now are discarded
@@ -213,11 +255,15 @@ func cmdUHist(o *Out, line string, f []string) {
 			info := c.Info()
 			obs = append(obs, fmt.Sprintf("I%d,%d", info.MetricsCount, info.SampleCount))
 		}
+		if op[0] != 'm' && w.Len() > wbOp {
+			checkMeta(w.Bytes()[wbOp:], fmt.Sprintf("flush during op %d (%s)", opIdx, op))
+		}
 	}
 	final := "err"
 	var fin []byte
 	if out, err := c.Resolve(); err == nil {
 		fin = out
+		checkMeta(out, "final Resolve")
 		s, ok := render(out)
 		final = fmt.Sprintf("%s[%s]", map[bool]string{true: "", false: "!"}[ok], s)
 	}
@@ -240,12 +286,16 @@ func cmdUHist(o *Out, line string, f []string) {
 		// identical to a sample cannot be told apart, so pools keep them distinct.
 		var samples []string
 		for _, d := range docs {
-			if meta != "" && d == meta {
+			isMeta := false
+			for _, mraw := range pool[6:] {
+				isMeta = isMeta || d == hx(mraw)
+			}
+			if isMeta {
 				continue
 			}
 			samples = append(samples, d)
 		}
-		if !metaEverChanged(sec[2]) && strings.Join(samples, ",") != strings.Join(accepted, ",") {
+		if strings.Join(samples, ",") != strings.Join(accepted, ",") {
 			bad("BSON flavour output differs from the accepted samples (byte-identical, in order, once)",
 				map[string]int{"got": len(samples), "accepted": len(accepted)})
 		}
@@ -264,17 +314,17 @@ func cmdUHist(o *Out, line string, f []string) {
 			want = append(want, d)
 		}
 		var got []bson.D
-		var metaD bson.D
-		if meta != "" {
-			_ = bson.Unmarshal(unhx(meta), &metaD)
-		}
 		for _, v := range vals {
-			if meta != "" && reflect.DeepEqual(normJSONValue(v), normJSONValue(metaD)) {
+			isMeta := false
+			for _, mv := range metaVals {
+				isMeta = isMeta || reflect.DeepEqual(normJSONValue(v), mv)
+			}
+			if isMeta {
 				continue
 			}
 			got = append(got, v)
 		}
-		if !metaEverChanged(sec[2]) {
+		{
 			if len(got) != len(want) {
 				bad("JSON flavour output has a different number of sample lines than accepted samples", map[string]int{"got": len(got), "accepted": len(want)})
 				return
@@ -312,8 +362,9 @@ func streamUncompressed(o *Out, rng *rand.Rand, thorough bool, _ []string) {
 		hx(docBytes(schemaDoc("D", 4))), hx(docBytes(schemaDoc("E", 5))),
 		hx(docBytes([]*Node{{Key: "s", Tag: 0x02, Raw: append(u32(2), 'x', 0)}, i64n("v", 7)})),
 		hx(docBytes([]*Node{i64n("host", 99), {Key: "name", Tag: 0x02, Raw: append(u32(3), 'h', '1', 0)}, i64n("x", 1)})), // metadata
+		hx(docBytes([]*Node{i64n("host", 77), {Key: "name", Tag: 0x02, Raw: append(u32(3), 'h', '2', 0)}, i64n("x", 2)})), // another metadata
 	}
-	alphabet := []string{"a0", "a1", "a2", "a3", "a4", "x", "r", "z", "f", "m6", "i"}
+	alphabet := []string{"a0", "a1", "a2", "a3", "a4", "x", "r", "z", "f", "m6", "m7", "i"}
 	maxLen := 3
 	if thorough {
 		maxLen = 4
@@ -337,6 +388,16 @@ func streamUncompressed(o *Out, rng *rand.Rand, thorough bool, _ []string) {
 		}
 	}
 	rec(nil)
+	// metadata replaced between two resolves / flushes
+	for _, ctor := range []string{"plain", "streaming", "streamingDynamic"} {
+		for _, fl := range []string{"bson", "json"} {
+			for _, h := range []string{"m6 a0 r m7 a1 r", "m6 a0 f m7 a1 f", "m6 a0 a1 a0 m7 a1 a0 a1 r", "m6 a0 r z m7 a1 r", "a0 r m6 a1 r m7 r", "m6 a0 f m7 a2 a2 f r"} {
+				for _, n := range []int{1, 2, 3} {
+					run(o, fmt.Sprintf("uhist %s %s %d | %s | %s", ctor, fl, n, strings.Join(pool, " "), h))
+				}
+			}
+		}
+	}
 	nr := 300
 	if thorough {
 		nr = 5000
@@ -360,8 +421,8 @@ func streamUncompressed(o *Out, rng *rand.Rand, thorough bool, _ []string) {
 				ops = append(ops, "z")
 			case r < 18:
 				ops = append(ops, "f")
-			case r < 19 && k < 3:
-				ops = append(ops, "m6")
+			case r < 19 && (k < 3 || rng.Intn(3) == 0):
+				ops = append(ops, []string{"m6", "m7"}[rng.Intn(2)])
 			default:
 				ops = append(ops, "i")
 			}
